@@ -8,7 +8,7 @@ from vf.runner import hyp_run, run_cases, guard, fail, exc_failure
 RULE = ("cells from 7 families (triclinic angles constructed inside the positive-volume region, a,b,c in "
         "[2,30] A, angles in [55,125] deg) x centring P/A/B/C/I/F/R x d* limit (bounded so the brute-force "
         "box holds <= 2e4 (quick) / 1.2e5 (thorough) points) x ring tolerance x a second d* limit on the same "
-        "object (cache history); oracle = brute-force box enumeration with the harness's own reciprocal metric "
+        "object (cache histories of gethkls and of makerings big/small/big); limits placed exactly on a reflection's d*; oracle = brute-force box enumeration with the harness's own reciprocal metric "
         "and International-Tables centring rules; non-trivial = at least one non-right angle or centring != P, "
         "and >= 10 reflections; distinct = hash of (cell, centring, limits)")
 ASSUMPTIONS = ["box bound |h_i| <= dsmax*|a_i| + 1 is complete (Cauchy-Schwarz: h_i = g.a_i)",
@@ -121,6 +121,10 @@ def check_list(peaks, cell, sym, dsmax, name):
                               (name, dl[k], got[k], dref[k]), call=name))
         if (np.diff(dl) < 0).any():
             fails.append(fail("unsorted", "%s: list not in ascending d*" % name, call=name))
+        if not dl.max() < dsmax:
+            # decidable without any tolerance: the listed value itself must be below the limit
+            fails.append(fail("limit", "%s: lists %s with d* %r which is not below the limit %r" %
+                              (name, got[int(np.argmax(dl))], dl.max(), dsmax), call=name))
     return fails, len(S), len(Bd)
 
 
@@ -202,6 +206,34 @@ def check(case, rec=None):
         if list(u2.ringds) != list(u.ringds) or any(
                 list(map(tuple, u2.ringhkls[d])) != list(map(tuple, u.ringhkls[d])) for d in u2.ringds):
             fails.append(fail("history", "rings after a history of gethkls calls differ from a fresh object"))
+    # ---- ring histories on one object: big, small, big again, then a list in between (cache must not shrink)
+    ok, u3 = guard(unitcell.unitcell, cell, sym)
+    if ok:
+        big, small = max(ds1, ds2), min(ds1, ds2)
+        mid = 0.5 * (big + small)
+        for step, lim in enumerate((big, small, big)):
+            ok, e = guard(u3.makerings, lim, tol)
+            if not ok:
+                fails.append(exc_failure("makerings(history step %d)" % step, e))
+                break
+            f, n, nb = check_list(u3.peaks, cell, sym, lim + tol, "makerings history step %d" % step)
+            fails += f
+            fails += check_rings(u3, tol, "makerings history step %d" % step)
+            uf = unitcell.unitcell(cell, sym)
+            uf.makerings(lim, tol)
+            if list(uf.ringds) != list(u3.ringds):
+                fails.append(fail("history", "rings after makerings(%g), makerings(%g), ... differ from a fresh "
+                                  "object at step %d (%d vs %d rings)" % (big, small, step, len(u3.ringds),
+                                                                          len(uf.ringds)), call="makerings"))
+            if fails:
+                break
+        if not fails:
+            ok, pk = guard(u3.gethkls, mid)
+            if ok:
+                f, n, nb = check_list(pk, cell, sym, mid, "gethkls after ring history")
+                fails += f
+            else:
+                fails.append(exc_failure("gethkls after ring history", pk))
     if rec is not None:
         oblique = any(abs(x - 90) > 1e-9 for x in cell[3:])
         nt = (oblique or sym != "P") and nrefl >= 10
@@ -226,7 +258,7 @@ def run_shard(rec):
     if rec.shard == 0:
         run_cases(rec, "regression", REGRESSION, lambda c: check(c, rec))
     hyp_run(rec, "cells", cases(20000 if quick else 120000), lambda c: check(c, rec),
-            max_examples=300 if quick else 2000)
+            max_examples=130 if quick else 1200)
 
 
 def replay(sub, case, rec):
